@@ -40,6 +40,22 @@ pub fn gen_tree(rng: &mut Rng, hostile_text: bool) -> CmdSpec {
         }
     }
     double_underscore(rng, &mut spec);
+    // sibling names where one is a string prefix of the other (`build` / `build-all`), in both
+    // declaration orders
+    fn prefix_siblings(rng: &mut Rng, c: &mut CmdSpec) {
+        if c.subs.len() >= 2 && rng.chance(1, 6) {
+            let (mut i, mut j) = (0, 1 + rng.below(c.subs.len() - 1));
+            if rng.coin() {
+                std::mem::swap(&mut i, &mut j);
+            }
+            let tail = *rng.pick(&["-all", "_x", "2", "-"]);
+            c.subs[j].name = format!("{}{}", c.subs[i].name, tail);
+        }
+        for s in c.subs.iter_mut() {
+            prefix_siblings(rng, s);
+        }
+    }
+    prefix_siblings(rng, &mut spec);
     spec
 }
 
@@ -352,7 +368,11 @@ pub fn case(seed: u64, st: &mut Stats) {
             for s in q.level.subs.iter().filter(|s| !s.has(Setting::Hide)) {
                 for n in std::iter::once(&s.name).chain(s.aliases.iter().filter(|(_, v)| *v).map(|(a, _)| a)) {
                     if n.starts_with(cur.as_str()) && !rep.contains(n) {
-                        st.violation("c16:bash-misses-subcommand", format!("{:?} | {}", n, c2()));
+                        // the script's walk includes the word under the cursor: a partial word that is
+                        // also the complete name of a sibling is taken as already entered (F29)
+                        let complete_sibling = q.level.subs.iter().any(|x| x.name == *cur || x.aliases.iter().any(|(a, _)| a == cur));
+                        let sfx = if complete_sibling { ":partial-word-is-a-complete-sibling-name" } else { "" };
+                        st.violation(format!("c16:bash-misses-subcommand{}", sfx), format!("{:?} | {}", n, c2()));
                         return;
                     }
                 }
